@@ -2071,6 +2071,15 @@ def str_index_range(e, args, fr, m):
     raise Unsupported('byte-range slice of a symbolic string')
 
 
+@contract(r'^(?:write|ewrite)$|^(?:io::)?(?:_print|_eprint)$')
+def console_output(e, args, fr, m):
+    """terminal output (colour::unnamed::write / ewrite, print! / eprint!): no effect on anything a property observes; recorded"""
+    if m.group(0) in ('write', 'ewrite') and len(args) != 3:
+        raise Unsupported('callee %s with %d arguments' % (m.group(0), len(args)))
+    e.extra.setdefault('console', []).append(m.group(0))
+    return UNIT
+
+
 @contract(r'^(?:mem::)?swap::<.*>$')
 def mem_swap(e, args, fr, m):
     a, b = e.load(args[0]), e.load(args[1])
